@@ -337,6 +337,16 @@ def curated():
         'b': T(**{'on-success': ['c']}),
         'c': T()})
     P.update(cycles())
+    # two with-items tasks side by side (their keyed completion jobs and
+    # locks must not interfere), joined afterwards
+    P['items_parallel'] = direct(
+        {'a': {'with-items': 'i in <% $.xs %>', 'publish': {'ra': ['result']},
+               'on-success': ['c']},
+         'b': {'with-items': 'i in <% $.ys %>', 'concurrency': 1,
+               'publish': {'rb': ['result']}, 'on-success': ['c']},
+         'c': T(join='all')},
+        input={'xs': ['a0', 'a1'], 'ys': ['b0', 'b1']},
+        output={'ra': ['var', 'ra'], 'rb': ['var', 'rb']})
     return P
 
 
